@@ -44,4 +44,16 @@ impl StoreCache {
             block_extensions: Mutex::new(LruCache::new(config.block_extensions_cache_size)),
         }
     }
+
+    /// Forgets everything that is cached under a block hash.
+    ///
+    /// The caches are read-through, so forgetting an entry is always safe. It is required when
+    /// the block is deleted, otherwise the store keeps answering for a block which is gone.
+    pub fn evict_block(&self, hash: &Byte32) {
+        self.headers.lock().pop(hash);
+        self.block_proposals.lock().pop(hash);
+        self.block_tx_hashes.lock().pop(hash);
+        self.block_uncles.lock().pop(hash);
+        self.block_extensions.lock().pop(hash);
+    }
 }
